@@ -232,8 +232,9 @@ def process(ctx: Ctx, cases: list[dict]) -> None:
         default = NativeFormatter().make_default_block_comment()
         own = next((t for t in exp[()][1] if re.search(r"\s[Cc]\+{2}\s", t)), None) if (exp[()][1] and re.search(r"\s[Cc]\+{2}\s", exp[()][1][0])) else None
         if own is not None:
-            if not out.startswith(own.split("\n")[0].rstrip()):
-                ctx.violation("output does not begin with the source's own header", c, out[:200], own)
+            rs = lambda t: "\n".join(l.rstrip() for l in t.replace("\r\n", "\n").replace("\r", "\n").split("\n"))
+            if not rs(out).startswith(rs(own)) or (default.split("\n")[1] in out and default.split("\n")[1] not in own):
+                ctx.violation("output does not begin with the source's own header (whole text, no default header in front of it)", c, out[:300], own)
         else:
             if not out.startswith(default.split("\n")[0]) or out.count(default.split("\n")[1]) != 1:
                 ctx.violation("output does not begin with exactly one default header", c, out[:300], default)
@@ -302,6 +303,13 @@ def run(ctx: Ctx) -> None:
     items = [{"i": "blockC", "text": "/* c */"}, {"i": "kv", "k": "a", "v": {"t": "bare", "w": "1"}},
              {"i": "sub", "k": "s", "items": [{"i": "blockC", "text": "/* d */"}, {"i": "kv", "k": "b", "v": {"t": "bare", "w": "2"}}]}]
     cases.append(mk_case(rng, items)); ctx.corpus_cases += 1
+    # the source's own header in several shapes: the C++ marker on the first line, on a later line, in lower case, a header
+    # without the marker (then the default header is written in front)
+    for hdr in ("/*---------------------------------*- C++ -*----------------------------------*\\\nfiletype dictionary; version 7;\n\\*---*/",
+                "/*\n *  -*- C++ -*-\n *  project header\n */", "/*\n  my own header\n  (c++ syntax)\n*/", "/* plain first comment */"):
+        items = [{"i": "blockC", "text": hdr}, {"i": "kv", "k": "a", "v": {"t": "bare", "w": "1"}},
+                 {"i": "sub", "k": "s", "items": [{"i": "lineC", "text": "// in s"}, {"i": "kv", "k": "b", "v": {"t": "bare", "w": "2"}}]}]
+        cases.append(mk_case(rng, items)); ctx.corpus_cases += 1
     for _ in range(ctx.n(500, 12000)):
         for _try in range(50):
             items = gen_items(rng, rng.choice([0, 1, 2, 3]), lstd=True)
